@@ -248,17 +248,24 @@ def run_hist(case, r):
     try:
         raw0 = values_for(dt, (2, 2))
         da = s.b.create_data_array("d", "t", data=raw0)
+        # a second, independently obtained handle and a view made from it are held for the whole run:
+        # every setter goes through `da`, reads go through all of them (no per-handle state may matter)
+        held = s.b.data_arrays["d"]
+        held_view = held.get_slice([0, 0], [2, 2], nix.DataSliceMode.Index)
         for d in range(1, case["depth"] + 1):
             for hist in itertools.product(sorted(HOPS), repeat=d):
                 # reset
                 da.polynom_coefficients = None
                 da.expansion_origin = None
                 st = {"c": [], "o": None}
+                ok = True
                 for name in hist:
                     HOPS[name](da)
                     k, v = HMODEL[name]
                     st[k] = v
-                ok = check_read(r, "whole-after-history", da[:], raw0, st["c"], st["o"], dt)
+                    ok = ok and check_read(r, "second-handle", held[:], raw0, st["c"], st["o"], dt)
+                    ok = ok and check_read(r, "held-view", held_view[:], raw0, st["c"], st["o"], dt)
+                ok = ok and check_read(r, "whole-after-history", da[:], raw0, st["c"], st["o"], dt)
                 raw = s.raw()
                 r.evals += 1
                 if raw.dtype != raw0.dtype or raw.tobytes() != raw0.tobytes():
